@@ -88,7 +88,30 @@ def rel_sweep_lines():
                 for (cols, size) in ((1, 2), (2, 3), (1, 3)):
                     for extra in (1, 2):
                         lines.append(f"{len(lines)} mism be={be} op={op} nm=8 nr=8 na=8 cols={cols} size={size} extra={extra}")
+    # the safe primitive-trait methods over the NTT120Avx bbc product kernels: result / operands shorter than `ell` rows need
+    for (op, wx, wy, wr) in (("bbc", 8, 8, 4), ("bbc1x2", 16, 16, 8), ("bbc2x2", 16, 32, 16)):
+        for ell in (0, 1, 3):
+            for r in sorted({wr, wr // 2, 0}):
+                for (dx, dy) in ((0, 0), (1, 0), (0, 1)):
+                    if ell == 0 and (dx or dy):
+                        continue
+                    lines.append(f"{len(lines)} prim op={op} ell={ell} res={r} x={wx * (ell - dx)} y={wy * (ell - dy)}")
     return lines
+
+
+def run_resilient(ctx, binp, lines):
+    """run the `rel` replays; a call that kills the process (SIGSEGV after a wild access) is answered `crashed:<rc>` and the
+    remaining lines continue in a fresh process"""
+    out, todo = [], list(lines)
+    while todo:
+        rc_, o, _ = ctx.run_lines(binp, ["rel"], todo)
+        o = [x for x in o if len(x.split()) >= 2]
+        out += o
+        if len(o) >= len(todo):
+            break
+        out.append(f"{todo[len(o)].split()[0]} crashed:{rc_}")
+        todo = todo[len(o) + 1:]
+    return out
 
 
 def run(ctx):
@@ -280,16 +303,14 @@ def run(ctx):
         # ---- violating arguments (ring degree / column mismatches), quick tier: the `release` profile (debug assertions ON):
         #      every call must panic or leave the canary frames of result and scratch intact
         rl = rel_sweep_lines()
-        rc_, rout, _ = ctx.run_lines(binp, ["rel"], rl)
-        if len(rout) != len(rl):
-            broken.append(f"harness rel sweep (release profile) stopped after {len(rout)} of {len(rl)} (rc={rc_})")
+        rout = run_resilient(ctx, binp, rl)
         for l, a in zip(rl, rout):
             t = l.split()
             ctx.count_case(("mism-release", t[2], t[3], a.split()[1].split(":")[0]))
-            if "broken" in a:
+            if "broken" in a or "crashed" in a:
                 ctx.oracle_failures += 1
                 if len(oracle_fail) < 20:
-                    oracle_fail.append({"case": l, "impl": a, "profile": "release", "why": "safe HAL call with an operand of another ring degree / column count wrote outside its result or scratch window",
+                    oracle_fail.append({"case": l, "impl": a, "profile": "release", "why": "safe call with an operand of another ring degree / column count / length wrote outside its result or scratch window (or crashed the process)",
                                         "rerun": f"printf '{l}\\n' | harness/target/release/pvh rel"})
         ctx.cov["mismatch_cases_release"] = len(rl)
         # ---- canaries
@@ -415,16 +436,16 @@ def run(ctx):
             broken.append("harness build failed (rel): " + getattr(ctx, "build_error", "")[-300:])
         else:
             rl = rel_sweep_lines()
-            rc_, rout, _ = ctx.run_lines(relp, ["rel"], rl)
+            rout = run_resilient(ctx, relp, rl)
             nb = 0
             for l, a in zip(rl, rout):
                 ctx.count_case(("mism-rel", l.split()[2], l.split()[3], a.split()[1].split(":")[0]))
-                if "broken" in a:
+                if "broken" in a or "crashed" in a:
                     nb += 1
                     ctx.oracle_failures += 1
                     if len(oracle_fail) < 20:
                         oracle_fail.append({"case": l, "impl": a, "profile": "rel (debug assertions off)",
-                                            "why": "memory outside the result / scratch window modified by a safe HAL call",
+                                            "why": "memory outside the result / scratch window modified by a safe call (or process crashed)",
                                             "rerun": f"printf '{l}\\n' | harness/target/rel/pvh rel"})
             ctx.cov["mismatch_cases_rel"] = {"cases": len(rl), "answers": len(rout), "broken": nb,
                                              "returned_ok": sum(1 for a in rout if a.split()[1] == "ok")}
